@@ -131,9 +131,10 @@ static void part_apropos(int max_root, int max_sub)
 {
     if(!replay_part("B|")) return;
     struct Kind { const char *name; bool subtree; };
-    static const Kind root_kinds[] = {{"a", false}, {"ab:i", false}, {"b::f", false}, {"c/d:", false}, {"e#2:i", false}, {"s/", true}, {"t/u/", true}, {"v#2/", true}, {"a/", true}};
+    static const Kind root_kinds[] = {{"a", false}, {"ab:i", false}, {"b::f", false}, {"c/d:", false}, {"e#2:i", false}, {"s/", true}, {"t/u/", true}, {"v#2/", true}, {"a/", true},
+                                      {"w/::i", true}, {"f#2/:f", true}};      // sub-tree ports whose name carries an argument spec behind the slash
     static const Kind sub_kinds[] = {{"x", false}, {"xy:i", false}, {"y::i:f", false}, {"z/", true}};
-    const int NR = 9, NS = 4;
+    const int NR = 11, NS = 4;
     std::vector<std::vector<int>> roots = selections(NR, max_root), subs = selections(NS, max_sub);
     // which sub-tables / root tables satisfy the side condition
     auto names_of = [](const std::vector<int> &sel, const Kind *kinds) { std::vector<const char *> n; for(int k : sel) n.push_back(kinds[k].name); return n; };
@@ -452,7 +453,7 @@ int main(int argc, char **argv)
     build_meta();
     const int maxn = T ? 9 : 6, max_root = 3, max_sub = T ? 3 : 2, maxk = T ? 6 : 3;
     vp::bound("collapsePath", "all absolute paths of 1.." + std::to_string(maxn) + " components over {a, bb, .., c.., instrument, a_component_of_32_characters_xyz}, with and without trailing '/'");
-    vp::bound("apropos", "root tables = ordered selections of 0.." + std::to_string(max_root) + " of 9 entries (5 leaves a ab:i b::f c/d: e#2:i, 4 sub-trees s/ t/u/ v#2/ a/), every sub-tree with every ordered selection of 0.." +
+    vp::bound("apropos", "root tables = ordered selections of 0.." + std::to_string(max_root) + " of 11 entries (5 leaves a ab:i b::f c/d: e#2:i, 6 sub-trees s/ t/u/ v#2/ a/ w/::i f#2/:f), every sub-tree with every ordered selection of 0.." +
                          std::to_string(max_sub) + " of {x, xy:i, y::i:f, z/{w k#2::i}}; trees violating the side condition are skipped");
     vp::bound("path_search", "tables = all sequences of 0.." + std::to_string(maxk) + " names over {a ab a/ a/b a/bc:i b b/} (duplicates allowed), metadata rotating over 10 blocks of 0..11 bytes; locations '' '/' '/s/' '/s' 's/' '/leaf' '/nope'; "
                              "needles = every prefix of every name + '' + absent; 3 options x reply_with_query x array/message form");
